@@ -23,7 +23,7 @@ ASSUMPTIONS = [
     "which redraw lands on which repeat position is not fixed by the statement: the model compares multisets and the untouched positions",
     "rows are finite, no signed zeros",
 ]
-REQUIRED_COUNTERS = {"scripts_on_nearly_equal_values": 300, "reused_sampler_calls": 300, "scripts": 500, "two_or_more_passes": 50, "budget_exhausted": 20, "zero_budget": 5, "history_with_repeats": 20}
+REQUIRED_COUNTERS = {"scripts_with_signed_zeros": 100, "scripts_on_nearly_equal_values": 300, "reused_sampler_calls": 300, "scripts": 500, "two_or_more_passes": 50, "budget_exhausted": 20, "zero_budget": 5, "history_with_repeats": 20}
 SHARDS = {"quick": 8, "thorough": 16}
 
 
@@ -121,6 +121,13 @@ def run_script(rng, out):
                 script[k] = history[rng.integers(len(history))]
             elif k > 0 and u > 0.8:
                 script[k] = script[rng.integers(k)]  # repeat of an earlier draw / redraw
+        if rng.random() < 0.2:
+            # signed zeros: -0.0 and 0.0 are the same point (a repeat), whatever their bit patterns
+            for arr in (script, history):
+                z = (arr == 0.0) & (rng.random(arr.shape) < 0.5)
+                arr[z] = -0.0
+            if np.any(script == 0.0) or np.any(history == 0.0):
+                c["scripts_with_signed_zeros"] = c.get("scripts_with_signed_zeros", 0) + 1
         cur["script"] = script
         sampler.pos = 0
         del log[:]
